@@ -25,12 +25,42 @@ RULE = ("histories of 1-2 colliding keys with 2-6 arrivals each (plus unique fea
         "own id is an earlier '<key>_n'), columns drawn as variants that are equal / differ in forced / differ in other "
         "columns, attribute sets overlapping; strategies error, warning, replace, create_unique, merge x all 64 subsets of "
         "{seqid,source,featuretype,score,strand,frame} as force_merge_fields (enumerated for merge) x {GFF3, GTF importer} "
-        "x {create_db only, create_db then 1-2 update() calls, optional reopen}; non-trivial = >= 3 arrivals on one key; "
-        "distinct = distinct (strategy, importer, force set, number of batches, per-key column-equality pattern)")
+        "x {create_db only, create_db then 1-2 update() calls, optional reopen}; layered input classes: valueless attribute "
+        "keys (on the stored feature / the newcomer / both / against the same key with values), start and/or end '.', "
+        "force_merge_fields handed over in shuffled order, GTF importer under 6 non-default (transcript key, gene key) "
+        "pairs (incl. swapped and decoy transcript_id/gene_id attributes) x all strategies, one key colliding in create_db "
+        "and again in 2-4 later update() calls (reopen never/always/mixed); non-trivial = >= 3 arrivals on one key; "
+        "distinct = distinct (strategy, importer, force set/order, number of batches, per-key column-equality pattern, "
+        "input classes)")
 REQUIRED = ["histories", "arrivals", "stored features compared", "attribute value sets compared", "forced columns compared",
             "level-1 relation rows compared", "update() calls", "aborts observed (error)", "start/end force rejected",
-            "autoid contract evaluations"]
+            "autoid contract evaluations",
+            # valueless attribute keys
+            "union: valueless key on the stored feature only", "union: valueless key on the newcomer only",
+            "union: valueless key on both", "union: valueless key meets the same key with values",
+            "valueless attribute keys compared",
+            # undefined coordinates
+            "collision: start is '.' on both (columns agree)", "collision: end is '.' on both (columns agree)",
+            "collision: start is '.' on one side only (columns differ)", "collision: end is '.' on one side only (columns differ)",
+            "undefined ('.') coordinates compared",
+            # GTF importer under non-default keys
+            "level-1 relation rows compared under non-default GTF keys", "update() calls with transcript_key / gene_key",
+            "replace: the replacement names a different level-1 parent (GTF, non-default keys)",
+            "replace: the replacement names a different level-2 parent (GTF, non-default keys)",
+            "level-2 gene rows compared (GTF)",
+            # several import runs
+            "histories colliding in create_db and in >= 2 later update() runs: create_unique",
+            "histories colliding in create_db and in >= 2 later update() runs: merge",
+            "... of these: reopened before every update", "... of these: same handle throughout",
+            "... of these: fresh '<key>_n' keys filed in >= 3 different runs",
+            # order of force_merge_fields
+            "forced columns compared (force_merge_fields in non-canonical order)",
+            "histories with force_merge_fields in non-canonical order (gff3)",
+            "histories with force_merge_fields in non-canonical order (gtf)"]
 REQUIRED_CLASSES = (["strategy=" + s for s in M.STRATEGIES] + ["fmt=gff3", "fmt=gtf", "path=create", "path=create+update"]
+                    + ["non-default GTF keys: strategy=" + s for s in M.STRATEGIES]
+                    + ["non-default GTF keys: path=create", "non-default GTF keys: path=create+update"]
+                    + ["collisions in create_db and >= 2 update() runs: strategy=" + s for s in ("create_unique", "merge")]
                     + ["arrival: " + a for a in ("new", "ignored", "replaced", "unique", "merged into key", "merged into spawn",
                                                  "spawned", "natural key collides with '<key>_n' entry")]
                     + ["force subset size=%d" % i for i in range(7)])
@@ -41,8 +71,13 @@ ASSUMPTIONS = [
     "values of one attribute of one input line do not repeat; values of forced columns contain no comma",
     "after an abort (strategy 'error') the state of the database is not judged",
     "GTF importer: run with gene/transcript inference disabled (derived features are C03's subject); the 'Parent link' of "
-    "a GTF feature is its transcript_id, and only level-1 rows whose child is a stored feature are judged",
-    "level-2 relations are not judged here (C02)",
+    "a GTF feature is the value of its transcript key (level 1) and of its gene key (level 2, filed directly from the "
+    "line), under the keys the importer was given; only rows whose child is a stored feature are judged",
+    "composed level-2 relations (GFF3) are not judged here (C02)",
+    "a valueless attribute key is a key with an empty value list; the union of value lists keeps the key even when the "
+    "union is empty; two '.' coordinates agree, '.' and a number differ",
+    "the same transcript/gene keys are given to create_db (gtf_transcript_key / gtf_gene_key) and to every update "
+    "(transcript_key / gene_key)",
 ]
 QUICK_SHARDS = 4
 THOROUGH_SHARDS = 16
@@ -97,7 +132,20 @@ def report(ctx, case, reason, msg, **detail):
     ctx.violation(case, d)
 
 
-def real_kwargs(case):
+def link_keys(case):
+    """(attribute key of the level-1 link, attribute key of the level-2 gene link or None)"""
+    if case["fmt"] != "gtf":
+        return "Parent", None
+    tk, gk = case.get("gtfkeys") or ("transcript_id", "gene_id")
+    return tk, gk
+
+
+def reopen_before(case, bi):
+    r = case["reopen"]
+    return bool(r[bi - 1]) if isinstance(r, list) else bool(r)
+
+
+def real_kwargs(case, bi=0):
     kw = {"merge_strategy": case["strategy"]}
     if case["strategy"] == "merge" or case.get("pass_force_anyway"):
         kw["force_merge_fields"] = list(case["force"])
@@ -107,6 +155,12 @@ def real_kwargs(case):
         kw["id_spec"] = [case["idkey"]]
     if case["fmt"] == "gtf":
         kw.update(disable_infer_genes=True, disable_infer_transcripts=True)
+        if case.get("gtfkeys"):
+            tk, gk = case["gtfkeys"]
+            if bi == 0:
+                kw.update(gtf_transcript_key=tk, gtf_gene_key=gk)      # create_db's names
+            else:
+                kw.update(transcript_key=tk, gene_key=gk)              # update()'s names
     return kw
 
 
@@ -117,26 +171,31 @@ def execute(ctx, case):
 
     fmt, strategy = case["fmt"], case["strategy"]
     batches = case["batches"]
-    store, outcome = M.run(strategy, case["force"], batches, case["idkey"])
+    tk, gk = link_keys(case)
+    store, outcome = M.run(strategy, case["force"], batches, case["idkey"],
+                           link_keys=[("level-1", tk)] + ([("level-2", gk)] if gk else []))
     if outcome[0] == "silent":
         ctx.skip("statement silent: " + outcome[1].split("'")[0].strip())
         return None
-    kw = real_kwargs(case)
     dbfn = ctx.tmp(".db") if case["db"] == "file" else ":memory:"
     db = None
     try:
         for bi, b in enumerate(batches):
             text = text_of(b, fmt)
             expect_abort = outcome == ("abort", bi)
+            kw = real_kwargs(case, bi)
             try:
                 if bi == 0:
                     db = gffutils.create_db(text, dbfn, from_string=True, **kw)
                 else:
-                    if case["reopen"]:
+                    if reopen_before(case, bi) and dbfn != ":memory:":
                         db.conn.close()
                         db = gffutils.FeatureDB(dbfn)
+                        ctx.mon("database reopened before update()")
                     db.update(text, from_string=True, make_backup=False, **kw)
                     ctx.mon("update() calls")
+                    if "transcript_key" in kw:
+                        ctx.mon("update() calls with transcript_key / gene_key")
             except Exception as ex:
                 if expect_abort:
                     ctx.mon("aborts observed (error)")
@@ -155,6 +214,7 @@ def execute(ctx, case):
         ctx.mon("histories")
         ctx.mon("arrivals", store.count)
         compare(ctx, case, db, store)
+        observed(ctx, case, store)
     finally:
         try:
             if db is not None:
@@ -166,6 +226,33 @@ def execute(ctx, case):
     for v in contracts.drain():
         ctx.violation(case, v)
     return store
+
+
+def noncanonical(case):
+    f = case["force"]
+    return case["strategy"] == "merge" and f != [c for c in M.COLS if c in f]
+
+
+def observed(ctx, case, store):
+    """Monitor counters of the input classes this (judged) history exercised."""
+    for name, n in store.stats.items():
+        if name.startswith("replace: ") and case["fmt"] == "gtf":
+            name += " (GTF, %s keys)" % ("non-default" if case.get("gtfkeys") else "default")
+        ctx.mon(name, n)
+    if noncanonical(case):
+        ctx.mon("histories with force_merge_fields in non-canonical order (%s)" % case["fmt"])
+    if case.get("gtfkeys"):
+        ctx.mon("GTF histories under non-default transcript/gene keys")
+    runs = store.collision_runs()
+    later = [r for r in runs if r > 0]
+    if 0 in runs and len(later) >= 2:
+        ctx.mon("histories colliding in create_db and in >= 2 later update() runs: " + case["strategy"])
+        re = [reopen_before(case, r) and case["db"] == "file" for r in range(1, len(case["batches"]))]
+        ctx.mon("... of these: %s" % ("reopened before every update" if all(re) else
+                                      "same handle throughout" if not any(re) else "reopened before some updates"))
+        fresh = [r for r, w in zip(store.runs, store.log) if w == "unique" or w.startswith("spawned")]
+        if len(set(fresh)) >= 3:
+            ctx.mon("... of these: fresh '<key>_n' keys filed in >= 3 different runs")
 
 
 def compare(ctx, case, db, store):
@@ -189,8 +276,12 @@ def compare(ctx, case, db, store):
             want = e["cols"][c]
             have = row[c]
             have = "." if have is None else str(have)
+            if want == "." and c in ("start", "end"):
+                ctx.mon("undefined ('.') coordinates compared")
             if isinstance(want, tuple):
                 ctx.mon("forced columns compared")
+                if noncanonical(case):
+                    ctx.mon("forced columns compared (force_merge_fields in non-canonical order)")
                 same = frozenset(have.split(",")) == want[1]
                 want = sorted(want[1])
             else:
@@ -209,6 +300,8 @@ def compare(ctx, case, db, store):
             continue
         for k, want in e["attrs"].items():
             ctx.mon("attribute value sets compared")
+            if not want:
+                ctx.mon("valueless attribute keys compared")
             have = attrs[k]
             if not isinstance(have, list) or sorted(have) != want:
                 what = "repeated" if isinstance(have, list) and sorted(set(have)) == want else "lost or invented"
@@ -229,9 +322,22 @@ def compare(ctx, case, db, store):
             ok = False
     # ---- relations: Parent values of the features as finally stored
     gtf = case["fmt"] == "gtf"
-    want = store.links("transcript_id" if gtf else "Parent")
+    tk, gk = link_keys(case)
+    want = store.links(tk)
     have = set((p, c) for p, c, lv in dump["relations"] if lv == 1 and (not gtf or c in got))
     ctx.mon("level-1 relation rows compared", len(want | have))
+    if case.get("gtfkeys"):
+        ctx.mon("level-1 relation rows compared under non-default GTF keys", len(want | have))
+    if gtf and want == have:
+        # the gene link of a GTF line is filed as a level-2 row of the feature the line ends up in
+        want2 = store.links(gk)
+        have2 = set((p, c) for p, c, lv in dump["relations"] if lv == 2 and c in got)
+        ctx.mon("level-2 gene rows compared (GTF)", len(want2 | have2))
+        if want2 != have2:
+            report(ctx, case, "relations", "level-2 rows differ from the %s values of the stored features (%s)" % (
+                gk, case["strategy"]), invented=sorted(have2 - want2), lost=sorted(want2 - have2),
+                stored=dict((k, e["attrs"].get(gk, [])) for k, e in exp.items()), arrivals=store.log)
+            ok = False
     if want != have:
         invented = sorted(have - want)
         lost = sorted(want - have)
@@ -239,8 +345,8 @@ def compare(ctx, case, db, store):
         for p, c in invented:
             kinds.append("%s->%s: no stored feature %s names %s" % (p, c, c, p))
         report(ctx, case, "relations", "level-1 rows differ from the %s values of the stored features (%s)" % (
-            "transcript_id" if gtf else "Parent", case["strategy"]), invented=invented, lost=lost, explain=kinds[:6],
-            stored=dict((k, e["attrs"].get("transcript_id" if gtf else "Parent", [])) for k, e in exp.items()),
+            tk, case["strategy"]), invented=invented, lost=lost, explain=kinds[:6],
+            stored=dict((k, e["attrs"].get(tk, [])) for k, e in exp.items()),
             arrivals=store.log)
         ok = False
     elif not gtf:
@@ -312,6 +418,18 @@ def account(ctx, case, store):
         ctx.classes[cls] += 1
     if case["strategy"] == "merge":
         ctx.classes["force subset size=%d" % len(case["force"])] += 1
+    if noncanonical(case):
+        ctx.classes["force order non-canonical: fmt=" + case["fmt"]] += 1
+    if case.get("gtfkeys"):
+        ctx.classes["non-default GTF keys: strategy=" + case["strategy"]] += 1
+        ctx.classes["non-default GTF keys: path=" + ("create" if nb == 1 else "create+update")] += 1
+    for o in case.get("opts", []):
+        if o != "gtfkeys":
+            ctx.classes["input class: " + {"flags": "valueless attribute keys", "dots": "'.' start/end"}[o]
+                        + ", strategy=" + case["strategy"]] += 1
+    runs = store.collision_runs()
+    if 0 in runs and len(runs) >= 3:
+        ctx.classes["collisions in create_db and >= 2 update() runs: strategy=" + case["strategy"]] += 1
     for a in store.log:
         ctx.classes["arrival: " + ("spawned" if a.startswith("spawned") else a)] += 1
         if a.startswith("spawned past"):
@@ -320,9 +438,22 @@ def account(ctx, case, store):
     if nat:
         ctx.classes["arrival: natural key collides with '<key>_n' entry"] += nat
     many = any(len(p) >= 3 for p in case.get("pattern", []))
-    ctx.case((case["strategy"], case["fmt"], sorted(case["force"]), nb, case.get("pattern")), many,
+    ctx.case((case["strategy"], case["fmt"], case["force"] if noncanonical(case) else sorted(case["force"]), nb,
+              case.get("pattern"), case.get("gtfkeys"), case.get("opts"), len(runs)), many,
              sample={"strategy": case["strategy"], "force": case["force"], "fmt": case["fmt"], "arrivals": store.log,
                      "input": [text_of(b, case["fmt"]) for b in case["batches"]][:2]})
+
+
+def draw_opts(rng, fmt, shuffle=None):
+    """Input classes layered over a history (each drawn independently)."""
+    o = {"shuffle": (rng.random() < 0.5) if shuffle is None else shuffle}
+    if rng.random() < 0.25:
+        o["flags"] = True
+    if rng.random() < 0.2:
+        o["dots"] = rng.choice(["start", "end", "both"])
+    if fmt == "gtf" and rng.random() < 0.35:
+        o["gtfkeys"] = rng.choice(G.GTF_KEYS)
+    return o
 
 
 def run(ctx):
@@ -339,14 +470,36 @@ def run(ctx):
                 i += 1
                 if not ctx.mine(i):
                     continue
-                for _ in range(reps):
-                    case = G.gen_history(rng, fmt, "merge", force, path)
+                for r in range(reps):
+                    # half of the repetitions hand the subset over in a shuffled order
+                    case = G.gen_history(rng, fmt, "merge", force, path, opts=draw_opts(rng, fmt, shuffle=bool(r % 2)))
                     account(ctx, case, execute(ctx, case))
     # 2. the other strategies (and more merge), random force sets
-    for _ in range(ctx.budget(4200, 64000)):
+    for _ in range(ctx.budget(3400, 60000)):
         strategy = rng.choice(["error", "warning", "replace", "create_unique", "create_unique", "merge"])
         force = rng.choice(M.subsets())
-        case = G.gen_history(rng, rng.choice(["gff3", "gtf"]), strategy, force, rng.choice(["create", "update"]))
+        fmt = rng.choice(["gff3", "gtf"])
+        case = G.gen_history(rng, fmt, strategy, force, rng.choice(["create", "update"]), opts=draw_opts(rng, fmt))
+        account(ctx, case, execute(ctx, case))
+    # 2b. GTF importer under non-default transcript/gene keys x every strategy x {create, create+update}
+    i = 0
+    for keys in G.GTF_KEYS:
+        for strategy in M.STRATEGIES:
+            for path in ("create", "update"):
+                i += 1
+                if not ctx.mine(i):
+                    continue
+                for _ in range(2 if ctx.tier == "quick" else 24):
+                    force = rng.choice(M.subsets()) if strategy == "merge" else []
+                    case = G.gen_history(rng, "gtf", strategy, force, path,
+                                         opts=dict(draw_opts(rng, "gtf"), gtfkeys=keys))
+                    account(ctx, case, execute(ctx, case))
+    # 2c. one key colliding in create_db and again in 2-4 later update() calls
+    for _ in range(ctx.budget(520, 9000)):
+        strategy = rng.choice(["create_unique", "create_unique", "merge", "merge", "merge", "replace", "warning"])
+        force = rng.choice(M.subsets()) if strategy == "merge" else []
+        fmt = rng.choice(["gff3", "gtf"])
+        case = G.gen_multirun(rng, fmt, strategy, force, opts=draw_opts(rng, fmt))
         account(ctx, case, execute(ctx, case))
     # 3. start/end cannot be forced
     for _ in range(ctx.budget(60, 1600)):
@@ -363,7 +516,9 @@ MANIFEST = {
             "each strategy and, for merge, every subset of the six forceable columns. The final features table must equal "
             "the model's (keys, columns, attribute value sets without repeats, forced columns as token sets), 'error' must "
             "abort, start/end in force_merge_fields must be refused, and the level-1 relations must be exactly the Parent "
-            "values of the features as finally stored.",
+            "values of the features as finally stored. Layered over the histories: valueless attribute keys, '.' start/end, "
+            "shuffled force_merge_fields, non-default GTF transcript/gene keys (level-1 and direct level-2 rows judged under "
+            "the given keys) and keys that collide in create_db and again in several later update() runs.",
     "note": "Trusted: gvmon/models/C05.py and the reference renderer. The relation part is reported under its own reason "
             "('relations: ...') so that it can be told apart from feature/attribute mismatches.",
 }
